@@ -498,6 +498,11 @@ static void run_csr_t(const Ctx& c, bool out_of_line_locks = false) {
       for (auto& l : model)
         for (auto& e : l)
           e.data = Bytes{};
+    } else if (((c.opts >> 4) & 3) == 2) {
+      // the overload taking a FileGraph the caller mapped itself
+      galois::graphs::FileGraph f;
+      f.fromFile(c.path);
+      galois::graphs::readGraph(*gp, f);
     } else
       galois::graphs::readGraph(*gp, c.path);
     break;
